@@ -29,7 +29,8 @@ OP_RAISES = {
     "operator.eq": set(), "operator.ne": set(), "operator.is_": set(), "operator.is_not": set(), "operator.not_": set(),
     "operator.lt": {"TypeError"}, "operator.le": {"TypeError"}, "operator.gt": {"TypeError"}, "operator.ge": {"TypeError"},
     "operator.neg": {"TypeError"}, "operator.pos": {"TypeError"},
-    "lambda a, b: a in b": {"TypeError"}, "lambda a, b: a not in b": {"TypeError"},
+    # membership: TypeError (non-container), ValueError (int out of range in a bytes constant: 300 in b"abc")
+    "lambda a, b: a in b": {"TypeError", "ValueError"}, "lambda a, b: a not in b": {"TypeError", "ValueError"},
     "all": set(), "any": set(),
 }
 PARSE_RAISES = {"SyntaxError", "ValueError", "RecursionError", "MemoryError"}
@@ -245,6 +246,43 @@ def run(ctx, rep) -> None:
                     cur = p
                 rep.check(ok and not reraises, "C20.R4", f"{f.qualname}: evaluate_expression call", "ExpressionError is caught and turned into a branch decision" if ok and not reraises else "a malformed condition propagates out of the handler", f.file, n.lineno, disc=f"caller:{f.qualname}")
     rep.floor("evaluate_expression call sites", n_sites, 2)
+    # the handler of a malformed condition must itself be total: inside `except ExpressionError:` the condition (any JSON value)
+    # may only be passed on (log argument, list append) - not measured, sliced, concatenated or formatted by method calls
+    for f in prog.all_functions():
+        if f.module.name == EXPR or f.parent is not None:
+            continue
+        for t_ in ast.walk(f.node):
+            if not isinstance(t_, ast.Try):
+                continue
+            calls_eval = [c_ for b_ in t_.body for c_ in ast.walk(b_) if isinstance(c_, ast.Call) and norm(c_.func).split(".")[-1] == "evaluate_expression" and c_.args]
+            if not calls_eval:
+                continue
+            cond_names = {norm(c_.args[0]) for c_ in calls_eval}
+            for h_ in t_.handlers:
+                if h_.type is None or "ExpressionError" not in norm(h_.type):
+                    continue
+                # aliases made inside the handler: shown = condition
+                aliases = set(cond_names)
+                for a_ in ast.walk(h_):
+                    if isinstance(a_, ast.Assign) and isinstance(a_.targets[0], ast.Name) and any(isinstance(x_, ast.Name) and x_.id in aliases for x_ in ast.walk(a_.value)):
+                        aliases.add(a_.targets[0].id)
+                risky = []
+                for n_ in ast.walk(h_):
+                    if isinstance(n_, ast.Call):
+                        fn_ = norm(n_.func)
+                        uses = any(isinstance(x_, ast.Name) and x_.id in aliases for a2 in n_.args for x_ in ast.walk(a2))
+                        if uses and not (fn_.startswith("logger.") or fn_.endswith(".append") or fn_ in ("str", "repr", "type")):
+                            risky.append(f"{fn_}(...)")
+                        if isinstance(n_.func, ast.Attribute) and isinstance(n_.func.value, ast.Name) and n_.func.value.id in aliases:
+                            risky.append(f"{fn_}()")
+                    elif isinstance(n_, ast.Subscript) and isinstance(n_.value, ast.Name) and n_.value.id in aliases:
+                        risky.append(norm(n_))
+                    elif isinstance(n_, ast.BinOp) and any(isinstance(x_, ast.Name) and x_.id in aliases for x_ in (n_.left, n_.right)):
+                        risky.append(norm(n_))
+                rep.check(not risky, "C20.R4", f"{f.qualname}: the ExpressionError handler is total", "the condition is only passed on (log argument / append)" if not risky else
+                          f"inside `except ExpressionError:` the condition is used by {sorted(set(risky))[:3]}: a non-string condition (rejected by the evaluator with ExpressionError) makes the handler itself raise TypeError, "
+                          "which nothing catches - the stage crashes instead of skipping the branch", f.file, h_.lineno, disc=f"handler-total:{f.qualname}")
+
     # the text handed to the evaluator is a str: either the evaluator rejects anything else with its own error before it
     # calls a str method on it, or every call site has established isinstance(<arg>, str)
     from ..dom import conditions_at
